@@ -58,6 +58,7 @@ class FileModel:
     def __init__(self):
         self.logical_files = []
         self.encrypted = []       # lr indexes
+        self.other_iflrs = 0      # indirectly formatted records that are not frame data
 
 
 def encode_element(rc, uid):
@@ -190,12 +191,17 @@ def _frame_table(rng, frame_types):
 
 
 NAME_POOL = None      # optional list of identifiers to draw channel / frame names from (so that different files share names)
+NAME_POOL_OC = None   # optional (origin, copy) given to most names drawn while NAME_POOL is set, so that whole object names
+                      # (not only the identifier text) repeat between logical files and between files, as they do in practice
 
 
-def _names(rng, n, taken):
+FRAME_NAME_POOL = None      # as NAME_POOL, for the names of the frame types only
+
+
+def _names(rng, n, taken, pool=None):
     out = []
     while len(out) < n:
-        free = [nm for nm in (NAME_POOL or []) if nm not in taken]
+        free = [nm for nm in (pool or NAME_POOL or []) if nm not in taken]
         if free:
             i = rng.choice(free)
         else:
@@ -203,11 +209,47 @@ def _names(rng, n, taken):
         if i in taken:
             continue
         taken.add(i)
-        out.append((rng.choice([0, 1, 2, 41, 200, 20000]), rng.choice([0, 0, 1, 3]), i))
+        if NAME_POOL_OC is not None and rng.random() < 0.8:
+            out.append((NAME_POOL_OC[0], NAME_POOL_OC[1], i))
+        else:
+            out.append((rng.choice([0, 1, 2, 41, 200, 20000]), rng.choice([0, 0, 1, 3]), i))
     return out
 
 
 FIRST_CHANNEL_ARRAY_P = 0.0      # share of frame types whose first channel is an array (an unindexed frame type, RP66V1 5.7.1)
+# ---- further knobs, all off by default (the default random stream is unchanged); a check that wants the wider space sets them
+BIG_DIMS_P = 0.0                 # share of non-first channels with a large / high-rank / degenerate dimension list
+BIG_DIMS = ((300,), (1024,), (4, 128), (2, 3, 50), (2, 2, 2, 2), (3, 1), (1, 1), (1, 7, 1))
+SPECIAL_VALUES_P = 0.0           # share of elements (IEEE and integer codes) that hold an extreme value instead of the counter pattern
+SHARE_IDENT_P = 0.0              # share of channels of a 2nd+ frame type whose identifier repeats one of an earlier frame type
+                                 # (another origin / copy number: a different channel object with the same identifier text)
+NUMBERING_STARTS = (1, 1, 1, 1, 100, 127, 16000)      # first frame number of a frame type
+WIDE_TYPE_P = 0.0                # share of frame types with 100..140 scalar channels (and few frames)
+LONG_TYPE_P = 0.0                # share of frame types with 300..600 frames (and one or two scalar channels)
+OTHER_IFLR_P = 0.0               # chance, after each frame, of an indirectly formatted record that is not frame data (types 1, 127, 128..255)
+
+_SPECIAL_F32 = (0x00000000, 0x80000000, 0x00000001, 0x807fffff, 0x00800000, 0x7f7fffff, 0xff7fffff, 0x7f800000, 0xff800000, 0x3eaaaaab,
+                0x4b7fffff, 0xcb800000)
+_SPECIAL_F64 = (0x0000000000000000, 0x8000000000000000, 0x0000000000000001, 0x800fffffffffffff, 0x0010000000000000, 0x7fefffffffffffff,
+                0xffefffffffffffff, 0x7ff0000000000000, 0xfff0000000000000, 0x3fd5555555555555, 0x433fffffffffffff, 0xc340000000000000)
+_INT_BITS = {E.SSHORT: (8, True), E.SNORM: (16, True), E.SLONG: (32, True), E.USHORT: (8, False), E.UNORM: (16, False), E.ULONG: (32, False)}
+
+
+def special_element(rng, rc):
+    """An extreme value of representation code rc -> (bytes, python number), or None when the code has none here.
+    The value of an IEEE word is taken with struct (Python's own IEEE decoding), integers are two's complement big-endian."""
+    if rc == E.FSINGL:
+        by = struct.pack('>I', rng.choice(_SPECIAL_F32))
+        return by, struct.unpack('>f', by)[0]
+    if rc == E.FDOUBL:
+        by = struct.pack('>Q', rng.choice(_SPECIAL_F64))
+        return by, struct.unpack('>d', by)[0]
+    if rc in _INT_BITS:
+        bits, signed = _INT_BITS[rc]
+        lo, hi = (-(1 << (bits - 1)), (1 << (bits - 1)) - 1) if signed else (0, (1 << bits) - 1)
+        v = rng.choice([lo, hi, 0, -1 if signed else hi - 1, lo + 1, hi >> 1])
+        return (v & ((1 << bits) - 1)).to_bytes(bits // 8, 'big'), v
+    return None
 
 
 def random_dims(rng, first):
@@ -215,6 +257,8 @@ def random_dims(rng, first):
         if FIRST_CHANNEL_ARRAY_P and rng.random() < FIRST_CHANNEL_ARRAY_P:
             return (rng.choice([2, 3, 40, 48, 70, 150]),)
         return (1,)
+    if BIG_DIMS_P and rng.random() < BIG_DIMS_P:
+        return rng.choice(BIG_DIMS)
     k = rng.random()
     if k < 0.4:
         return (1,)
@@ -258,14 +302,31 @@ def random_logpass_file(rng, max_frames=60, max_logical_files=2, max_types=3, ma
         taken = set()
         ntypes = rng.choice([1, 1, 2, rng.randrange(1, max_types + 1)])
         all_channels = []
-        for name in _names(rng, ntypes, taken):
+        shapes = {}                # frame type index -> 'wide' | 'long'
+        for ti, name in enumerate(_names(rng, ntypes, taken, FRAME_NAME_POOL)):
             nch = rng.choice([1, 2, 3, rng.randrange(1, max_channels + 1)])
+            if WIDE_TYPE_P and rng.random() < WIDE_TYPE_P:
+                shapes[ti], nch = 'wide', rng.randrange(100, 141)
+            elif LONG_TYPE_P and rng.random() < LONG_TYPE_P:
+                shapes[ti], nch = 'long', rng.choice([1, 2])
             chans = []
-            for ci, cname in enumerate(_names(rng, nch, taken)):
+            cnames = _names(rng, nch, taken)
+            if SHARE_IDENT_P and all_channels:
+                used_names = {c.name for c in all_channels}
+                mine = set()
+                for k in range(len(cnames)):
+                    if rng.random() < SHARE_IDENT_P:
+                        o, c, i = rng.choice(all_channels).name
+                        nm = (o + 1 + rng.randrange(3), c, i) if rng.random() < 0.5 else (o, (c + 1 + rng.randrange(3)) % 256, i)
+                        if nm not in used_names and i not in mine:
+                            cnames[k] = nm
+                    mine.add(cnames[k][2])
+                    used_names.add(cnames[k])
+            for ci, cname in enumerate(cnames):
                 rc = rng.choice(FRAME_CODES if rng.random() < 0.6 else WIDE)
                 units = None if rng.random() < 0.3 else rng.choice([b'm', b'ft', b's', b'0.1 in', b'ohm.m', b'g/cm3', b'', b'api'])
                 long_name = None if rng.random() < 0.2 else bytes(rng.randrange(32, 127) for _ in range(rng.randrange(0, 20)))
-                chans.append(Channel(cname, rc, random_dims(rng, ci == 0), units, long_name))
+                chans.append(Channel(cname, rc, (1,) if ti in shapes else random_dims(rng, ci == 0), units, long_name))
             desc = None if rng.random() < 0.3 else bytes(rng.randrange(32, 127) for _ in range(rng.randrange(0, 16)))
             lf.frame_types.append(FrameType(name, chans, desc))
             all_channels += chans
@@ -279,9 +340,13 @@ def random_logpass_file(rng, max_frames=60, max_logical_files=2, max_types=3, ma
         for ti, ft in enumerate(lf.frame_types):
             k = rng.random()
             n = 1 if k < 0.08 else rng.randrange(2, 8) if k < 0.4 else rng.randrange(2, max_frames + 1)
+            if shapes.get(ti) == 'wide':
+                n = min(n, 6)
+            elif shapes.get(ti) == 'long':
+                n = rng.randrange(300, 601)
             pending += [ti] * n
         rng.shuffle(pending)
-        numbering = [rng.choice([1, 1, 1, 1, 100, 127, 16000]) for _ in lf.frame_types]
+        numbering = [rng.choice(NUMBERING_STARTS) for _ in lf.frame_types]
         gap = [rng.random() < 0.2 for _ in lf.frame_types]
         for ti in pending:
             ft = lf.frame_types[ti]
@@ -302,6 +367,8 @@ def random_logpass_file(rng, max_frames=60, max_logical_files=2, max_types=3, ma
                 nums = []
                 for _ in range(ch.count):
                     by, v = encode_element(ch.rc, uid)
+                    if SPECIAL_VALUES_P and rng.random() < SPECIAL_VALUES_P:
+                        by, v = special_element(rng, ch.rc) or (by, v)
                     uid += 1
                     body += by
                     nums.append(v)
@@ -309,6 +376,17 @@ def random_logpass_file(rng, max_frames=60, max_logical_files=2, max_types=3, ma
             ft.frames.append(Frame(numbering[ti], len(lrs), values))
             numbering[ti] += 1
             lrs.append(LR(False, 0, bytes(body), False))
+            if OTHER_IFLR_P and rng.random() < OTHER_IFLR_P:
+                # indirectly formatted records that are not frame data [RP66V1 3.3, Appendix A]: unformatted data (type 1, the
+                # descriptor is a NO-FORMAT object, any bytes follow), end of data (type 127, the descriptor only) and private types
+                k = rng.random()
+                if k < 0.45:
+                    lrs.append(LR(False, 1, E.enc_obname(rng.randrange(0, 3), 0, b'NOFMT-%d' % rng.randrange(3)) + bytes(rng.getrandbits(8) for _ in range(rng.randrange(0, 40))), False))
+                elif k < 0.75:
+                    lrs.append(LR(False, 127, E.enc_obname(*ft.name), False))
+                else:
+                    lrs.append(LR(False, rng.randrange(128, 256), E.enc_obname(*ft.name) + bytes(rng.getrandbits(8) for _ in range(rng.randrange(0, 24))), False))
+                model.other_iflrs += 1
             if other_tables and rng.random() < 0.02:
                 add_table(lf, E.random_table(rng, max_attrs=3, max_objects=2, allow_invariant=False, allow_all_omitted=False, allow_absent=False))
         add_encrypted()
